@@ -484,7 +484,7 @@ def r11d(ctx):
 
 @rule(
     "R11e",
-    ["C11", "C09", "C06", "C01"],
+    ["C11", "C09", "C06", "C01", "C04", "C18"],
     """POSITIONS ARE NOT PARTITION NUMBERS: (a) in a PartitionsFiltered class (outside _filtered_task, whose argument is already
     an absolute number) a loop / comprehension over range(self.npartitions) - the POSITIONS of the selected partitions -
     may subscript per-partition sequences only through self._partitions[i]; (b) FusedIO's buckets hold absolute
